@@ -1762,6 +1762,17 @@ impl From<info::XmlNode<info::XmlAttribute>> for XmlAttr {
     }
 }
 
+impl XmlAttr {
+    /// Element that carries this attribute (`None` for a detached attribute).
+    pub fn owner_element(&self) -> Option<XmlElement> {
+        self.attribute
+            .borrow()
+            .owner_element()
+            .ok()
+            .map(XmlElement::from)
+    }
+}
+
 impl fmt::Debug for XmlAttr {
     fn fmt(&self, f: &mut fmt::Formatter<'_>) -> Result<(), fmt::Error> {
         write!(f, "XmlAttr {{ {} }}", self.name())
@@ -2169,7 +2180,10 @@ impl XmlElement {
             .borrow()
             .in_scope_namespace()?
             .iter()
-            .map(XmlNamespace::from)
+            .map(|v| XmlNamespace {
+                namespace: v,
+                owner: Some(self.clone()),
+            })
             .collect())
     }
 
@@ -3487,6 +3501,7 @@ impl fmt::Display for XmlProcessingInstruction {
 #[derive(Clone, PartialEq)]
 pub struct XmlNamespace {
     namespace: info::XmlNode<info::XmlNamespace>,
+    owner: Option<XmlElement>,
 }
 
 impl Node for XmlNamespace {
@@ -3574,7 +3589,10 @@ impl PrettyPrint for XmlNamespace {
 
 impl From<info::XmlNode<info::XmlNamespace>> for XmlNamespace {
     fn from(value: info::XmlNode<info::XmlNamespace>) -> Self {
-        XmlNamespace { namespace: value }
+        XmlNamespace {
+            namespace: value,
+            owner: None,
+        }
     }
 }
 
@@ -3603,6 +3621,11 @@ impl fmt::Display for XmlNamespace {
 impl XmlNamespace {
     pub fn implicit(&self) -> bool {
         self.namespace.borrow().implicit()
+    }
+
+    /// Element for which this namespace node is in scope (`None` for a detached node).
+    pub fn owner_element(&self) -> Option<XmlElement> {
+        self.owner.clone()
     }
 }
 
